@@ -10,6 +10,7 @@ theorem src_c20_ok :
     srcV2ReplayLeaf = "FROM leaf WHERE version > ? AND version <= ?" ∧
     srcV2ReplayDelete = "FROM leaf_delete WHERE version > ? AND version <= ?" ∧
     srcV2ReplayOrder = "ORDER BY version, sequence" ∧
-    srcV2LoadFrom = "tree.version = tree.checkpoints.FindPrevious(version)" := by
-  decide
+    srcV2LoadFrom = "tree.version = tree.checkpoints.FindPrevious(version)" ∧
+    srcV2CheckpointRule = "tree.shouldCheckpoint = tree.version == 1 || (tree.checkpointInterval > 0 && tree.version-tree.checkpoints.Last() >= tree.checkpointInterval) || (tree.checkpointMemory > 0 && tree.workingBytes >= tree.checkpointMemory)" :=
+  ⟨rfl, rfl, rfl, rfl, rfl, rfl, rfl, rfl, rfl⟩
 end Iavl.Facts
